@@ -24,11 +24,11 @@ Proof. revert l; induction k; intros [|y r]; cbn; auto. intros [H|H]; auto. Qed.
 
 (** Every step is the identity, a removal of a message, or one handler call
     whose input is a client proposal, a pending timer, or a message in flight. *)
-Inductive origin (w : sys) (i : Z) : pin -> Prop :=
-| or_client v : origin w i (IPropose v)
-| or_timer b : In (i, b) (timers w) -> origin w i (IRetry b)
-| or_msg src m : In (src, m) (net w) -> dst_of m = i -> is_retry m = false -> origin w i (to_input src m)
-| or_timer_as_msg src b : In (src, ORetry b) (net w) -> i = -1 -> origin w i (IRetry b).
+Inductive origin (n : Z) (w : sys) (i : Z) : pin -> Prop :=
+| or_client v : 0 <= i < n -> origin n w i (IPropose v)
+| or_timer b : In (i, b) (timers w) -> origin n w i (IRetry b)
+| or_msg src m : In (src, m) (net w) -> dst_of m = i -> is_retry m = false -> origin n w i (to_input src m)
+| or_timer_as_msg src b : In (src, ORetry b) (net w) -> i = -1 -> origin n w i (IRetry b).
 
 Definition handled (n : Z) (w : sys) (i : Z) (inp : pin) (w' : sys) : Prop :=
   let '(s', outs) := step (cfg_of n i) (nodes w i) inp in
@@ -38,7 +38,8 @@ Definition handled (n : Z) (w : sys) (i : Z) (inp : pin) (w' : sys) : Prop :=
   (forall x, In x (timers w') -> In x (timers w) \/ exists b, In (ORetry b) outs /\ x = (i, b)) /\
   sent w' = sent w ++ msgs /\
   (proposed w' = proposed w \/ exists v, inp = IPropose v /\ proposed w' = v :: proposed w) /\
-  (forall v, inp = IPropose v -> In v (proposed w')).
+  (forall v, inp = IPropose v -> In v (proposed w')) /\
+  votes w' = votes w ++ match acc_b s' with Some b => [(i, b, acc_v s')] | None => [] end.
 
 Lemma sys_handle_handled n w i inp net' timers' proposed' :
   (forall x, In x net' -> In x (net w)) -> (forall x, In x timers' -> In x (timers w)) ->
@@ -57,8 +58,9 @@ Qed.
 Lemma sys_step_cases n w a :
   sys_step n w a = w \/
   (nodes (sys_step n w a) = nodes w /\ sent (sys_step n w a) = sent w /\ proposed (sys_step n w a) = proposed w /\
-   (forall x, In x (net (sys_step n w a)) -> In x (net w)) /\ timers (sys_step n w a) = timers w) \/
-  exists i inp, origin w i inp /\ handled n w i inp (sys_step n w a).
+   (forall x, In x (net (sys_step n w a)) -> In x (net w)) /\ timers (sys_step n w a) = timers w /\
+   votes (sys_step n w a) = votes w) \/
+  exists i inp, origin n w i inp /\ handled n w i inp (sys_step n w a).
 Proof.
   destruct a; cbn.
   - destruct (nth_error (net w) k) as [[src m]|] eqn:E; [|auto]. right; right.
@@ -76,8 +78,8 @@ Proof.
     apply sys_handle_handled; auto.
     + intros x; apply In_remove_nth.
     + intros v H; discriminate.
-  - destruct ((0 <=? i) && (i <? n)); [|auto]. right; right.
-    exists i, (IPropose v). split; [constructor|].
+  - destruct ((0 <=? i) && (i <? n)) eqn:RG; [|auto]. right; right.
+    exists i, (IPropose v). split; [constructor; lia|].
     apply sys_handle_handled; auto.
     + right; eauto.
     + intros v' H; inversion H; left; auto.
@@ -240,11 +242,11 @@ Proof. intros H. destruct o; cbn; auto; intros; eauto using okv_mono. Qed.
 
 Lemma vinv_step n w a : vinv w -> vinv (sys_step n w a).
 Proof.
-  intros [N S T]. destruct (sys_step_cases n w a) as [E|[[E1 [E2 [E3 [E4 E5]]]]|[i [inp [O Hd]]]]].
+  intros [N S T]. destruct (sys_step_cases n w a) as [E|[[E1 [E2 [E3 [E4 [E5 E6]]]]]|[i [inp [O Hd]]]]].
   - rewrite E; split; auto.
   - split; rewrite ?E1, ?E2, ?E3; auto.
   - unfold handled in Hd. destruct (step (cfg_of n i) (nodes w i) inp) as [s' outs] eqn:ST.
-    destruct Hd as [H1 [H2 [H3 [H4 [H5 H6]]]]].
+    destruct Hd as [H1 [H2 [H3 [H4 [H5 [H6 H7]]]]]].
     set (P := fun v => In v (proposed w)). set (Q := fun v => In v (proposed (sys_step n w a))).
     assert (PQ : forall v, P v -> Q v).
     { unfold P, Q. destruct H5 as [->|[v0 [_ ->]]]; cbn; auto. }
@@ -434,14 +436,14 @@ Proof. split; cbn; try contradiction. intros i; apply ninv_init. Qed.
 
 Lemma uinv_step n w a : uinv n w -> uinv n (sys_step n w a).
 Proof.
-  intros [N S U]. destruct (sys_step_cases n w a) as [E|[[E1 [E2 [E3 [E4 E5]]]]|[i [inp [O Hd]]]]].
+  intros [N S U]. destruct (sys_step_cases n w a) as [E|[[E1 [E2 [E3 [E4 [E5 E6]]]]]|[i [inp [O Hd]]]]].
   - rewrite E; split; auto.
   - split; rewrite ?E1, ?E2; auto.
   - unfold handled in Hd. pose proof (step_ninv (cfg_of n i) (nodes w i) inp (N i)) as NI.
     pose proof (step_p1_le (cfg_of n i) (nodes w i) inp (N i)) as PL.
     pose proof (step_accepts (cfg_of n i) (nodes w i) inp) as SA.
     destruct (step (cfg_of n i) (nodes w i) inp) as [s' outs] eqn:ST. cbn in NI, PL, SA.
-    destruct Hd as [H1 [H2 [H3 [H4 [H5 H6]]]]].
+    destruct Hd as [H1 [H2 [H3 [H4 [H5 [H6 H7]]]]]].
     assert (NEW : forall src d k b x, In (src, OAccept d k b x) (map (fun o => (i, o)) (filter (fun o => negb (is_retry o)) outs)) ->
                   src = i /\ In (OAccept d k b x) outs).
     { intros src d k b x H. apply in_map_iff in H as [o [Eo Ho]]. inversion Eo; subst. apply filter_In in Ho as [Ho _]. auto. }
